@@ -569,6 +569,10 @@ def parseChunk(raw):  # reading transfer encoded raw
         (yield None)
 
     size, sep, exts = line.partition(b';')
+    size = size.strip(b' \t')
+    if not size or not all(c in b'0123456789abcdefABCDEF' for c in size):
+        # chunk-size = 1*HEXDIG  whereas int(x, 16) also accepts sign, 0x prefix and _
+        raise ValueError("Invalid chunk size '{0}'".format(size.decode('iso-8859-1')))
     try:
         size = int(size.strip().decode('ascii'), 16)
     except ValueError:  # bad size
